@@ -216,6 +216,30 @@ impl<F: Flavour> World<F> {
                 let (out, inn) = self.lists(*u);
                 Obs::Lists { out, inn }
             }
+            Op::SnapshotVia { u, style } => {
+                // styles that visit every element: for_each, try_for_each, fold; the body asks the
+                // iterated node a question (a read lock of its own)
+                let st = match style % 3 {
+                    0 => 3,
+                    1 => 4,
+                    _ => 7,
+                };
+                let node = &self.nodes[*u];
+                let mut out = Vec::new();
+                let mut inn = Vec::new();
+                F::for_adapted(node, 0, st, &mut |a, b, e| {
+                    let _ = F::out_degree(&a);
+                    out.push((F::key(&b), e.0));
+                    out.len() < ITER_CAP
+                });
+                F::for_adapted(node, 1, st, &mut |a, b, e| {
+                    let _ = F::in_degree(&b);
+                    let other = if F::DIRECTED { a } else { b };
+                    inn.push((F::key(&other), e.0));
+                    inn.len() < ITER_CAP
+                });
+                Obs::Lists { out, inn }
+            }
             Op::Search { root, spec } => search_obs::<F>(&self.nodes[*root], spec),
             Op::GView { kind } => {
                 let Some(g) = self.graph.as_ref() else { return Obs::Unsupported };
